@@ -18,7 +18,10 @@ META = {
     "note": "Bounded by the listed histories (plus seeded random ones in the thorough tier), single rank for the observed call, small libraries. "
             "The frame/invariant obligations of DESIGN.md for this property are not part of this check. The partial-file history goes beyond the "
             "statement's 'completed runs' (a completed run removes its partial files); it is reported under its own key.",
-    "technique": "differential testing of call histories against a fresh-process reference, byte comparison of all produced files",
+    "structural": "In addition, frame obligations are discharged on the AST of the stage entry points (pyvc/frames.py): every file opened in append mode is truncated or removed "
+                  "earlier in the same call, every shuffle is preceded by its own seed, writes into the module-level symbol table only bind 'a<i>' to the i-th parameter symbol, all other "
+                  "files are opened with 'w' and shell redirections use '>'.",
+    "technique": "frame obligations on the AST (structural) + differential testing of call histories against a fresh-process reference, byte comparison of all produced files",
 }
 CHECKER = "./bin/check C16 (harness/rt_c16.py: one process per history, sha256 of the produced files vs fresh-process reference)"
 
@@ -199,6 +202,13 @@ def check(run):
     run.assume("A-hash (PYTHONHASHSEED fixed; with another seed inv_subs files differ textually)", "A-seed: np.random.seed(1234) before every fitting stage in every process",
                "A-time: per-function time limits of the fitting stages raised to 60 s so that machine load cannot change a result")
     run.trust("MPI stand-in /verif/stubs/mpi4py (single rank for observed calls)", "sha256")
+    from vlib import deductive as D
+    from pyvc import frames
+    sfailed = D.structural_generic(run, ["generation/generator.py", "generation/simplifier.py", "generation/duplicate_checker.py", "fitting/test_all.py",
+                                         "fitting/test_all_Fisher.py", "fitting/match.py", "fitting/combine_DL.py"], frames.obligations, "pyvc.frames (AST analysis)",
+                                   "frame obligations: append-mode files reset earlier in the call, shuffles preceded by their own seed, symbol-table writes canonical, truncating writes")
+    D.report_structural(run, sfailed, "frames", "pyvc/frames.py")
+    run.trust("pyvc.frames (structural analysis of file modes, RNG seeding and module-level state)")
     return run.finish(META["level"], META["text"], CHECKER,
                       rule="cases = call histories executed (one process each); distinct = produced files compared bytewise with the reference")
 
